@@ -3,7 +3,7 @@
    projection truth tables. *)
 Require Import Cirbo.Model.Base Cirbo.Model.Gate Cirbo.Model.Den Cirbo.Model.ConeSem.
 Require Import Cirbo.Generated.GateTypes Cirbo.Generated.PatternOps Cirbo.Proofs.PatternBits.
-Open Scope N_scope.
+Local Open Scope N_scope.
 
 Lemma max_pattern_eq n : max_pattern n = 2 ^ (2 ^ n) - 1.
 Proof. unfold max_pattern. rewrite !N.shiftl_1_l. reflexivity. Qed.
